@@ -86,6 +86,18 @@ def gen_cases(ctx, ngroups):
         for _ in range(len(ents) + 2):
             toks += ["n", "x1"]
         out.append(Case(A.rdr_op(kind, pol, toks, d), tags={"tree", "pol=" + pol}, note=("t", 100000 + g)))
+        if g % 2 == 0:
+            # members BEHIND the end of the archive (an end marker and padding, or a header with a bad checksum, then valid members):
+            # the end is final – nothing behind it may ever be presented, whatever was extracted before (a dangerous link is
+            # extracted, so the reader still has entries of its own to present after the end)
+            d0 = d[:-1] if d.endswith(b"\0") else d
+            d0 += A._member(r, b"", b"zlnk|../outside", method=b"-lhd-", perms=0o120777, level=r.choice([0, 1, 2]))
+            hidden = A._member(r, b"", b"hidden1", data=b"behind the end", level=r.choice([0, 1, 2])) + \
+                A._member(r, b"zlnk/", b"hidden2", data=b"x", level=r.choice([1, 2])) + b"\0"
+            bad = bytearray(A._member(r, b"", b"bad", data=b"", level=0)); bad[1] ^= 0x55
+            stop = r.choice([b"\0" * 22, b"\0" * 22, b"\0" + S.rand_bytes(r, 21), bytes(bad)])
+            out.append(Case(A.rdr_op(kind, pol, toks + ["n", "x1", "n", "x1", "n"], d0 + stop + hidden), tags={"tree", "behind-the-end", "pol=" + pol},
+                            note=("t", 150000 + g)))
     # sibling directories whose names are prefixes of one another (a/ ab/ a.bak/ lib/ lib/sub/ lib2/), everything extracted, default
     # policy mostly: "is the next entry still inside the directory on top of the stack?" is a path-prefix test
     for g in range(max(4, ngroups // 2)):
@@ -234,6 +246,10 @@ def judge_groups(cases, c_outs):
             res = split_result(c_outs[i])
             hdrs = [x for o, x in zip(ops, res) if o == "n"]
             last_normal = max([k for k, x in enumerate(hdrs) if x.startswith("H0:")], default=-1)
+            if "END" in hdrs and any(x != "END" for x in hdrs[hdrs.index("END"):]):
+                why[i] = "a header was returned after the end had been reported"
+            if "behind-the-end" in cases[i].tags and any(("68696464656e" in x) for x in hdrs):
+                why[i] = "a member that lies behind the end of the archive was presented"
             prev_len = None
             for k, x in enumerate(hdrs):
                 if not x.startswith("H1:"):
